@@ -51,6 +51,16 @@ def ap(root, path=(), rec=False):
     return (root, path, rec)
 
 
+def freshen(val):
+    """a new container whose *elements* alias ``val`` (alias mode)"""
+    return frozenset((r if r.startswith("~") else "~" + r, p, f) for (r, p, f) in val)
+
+
+def elements(val):
+    """elements of a value: for a fresh container, the aliased objects"""
+    return frozenset((r[1:] if r.startswith("~") else r, p, f) for (r, p, f) in val)
+
+
 def paths_of(val, root=None, rec=None):
     return {p for (r, p, f) in val
             if (root is None or r == root) and (rec is None or f == rec)}
@@ -126,7 +136,8 @@ class Summary:
 
 class Flow:
     def __init__(self, model: Model, mapper: str | None, max_depth: int = 6,
-                 follow_module_funcs: bool = True):
+                 follow_module_funcs: bool = True, alias_only: bool = False):
+        self.alias_only = alias_only
         self.m = model
         self.mapper = mapper
         self.max_depth = max_depth
@@ -180,6 +191,8 @@ class Flow:
     def expand_attr(self, base, attr, summ, depth, node=None):
         out = set()
         for (root, p, rf) in base:
+            if root.startswith("~"):
+                continue
             if rf or root == "__mapper__":
                 # attribute of a recursion result: still "derived from rec(p)"
                 out.add((root, p, rf))
@@ -229,6 +242,9 @@ class Flow:
             return self.expand_attr(base, n.attr, summ, depth, n)
         if isinstance(n, ast.Subscript):
             v = self._named_view(self.ev(n.value, env, summ, depth))
+            if self.alias_only:
+                v = freshen(elements(v)) if isinstance(n.slice, ast.Slice) \
+                    else elements(v)
             k = self.ev(n.slice, env, summ, depth)
             if isinstance(n.value, ast.Attribute) \
                     and isinstance(n.value.value, ast.Name) \
@@ -241,13 +257,13 @@ class Flow:
             s = frozenset()
             for e in n.elts:
                 s |= self.ev(e, env, summ, depth)
-            return s
+            return freshen(s) if self.alias_only else s
         if isinstance(n, ast.Dict):
             s = frozenset()
             for e in list(n.keys) + list(n.values):
                 if e is not None:
                     s |= self.ev(e, env, summ, depth)
-            return s
+            return freshen(s) if self.alias_only else s
         if isinstance(n, ast.IfExp):
             self.ev(n.test, env, summ, depth)
             return self.ev(n.body, env, summ, depth) | self.ev(n.orelse, env, summ, depth)
@@ -257,9 +273,11 @@ class Flow:
                 s |= self.ev(v, env, summ, depth)
             return s
         if isinstance(n, ast.BinOp):
-            return self.ev(n.left, env, summ, depth) | self.ev(n.right, env, summ, depth)
+            v = self.ev(n.left, env, summ, depth) | self.ev(n.right, env, summ, depth)
+            return freshen(elements(v)) if self.alias_only else v
         if isinstance(n, ast.UnaryOp):
-            return self.ev(n.operand, env, summ, depth)
+            v = self.ev(n.operand, env, summ, depth)
+            return frozenset() if self.alias_only else v
         if isinstance(n, ast.Compare):
             lv = self.ev(n.left, env, summ, depth)
             rvs = [self.ev(c, env, summ, depth) for c in n.comparators]
@@ -272,8 +290,10 @@ class Flow:
                 for c in g.ifs:
                     self.ev(c, env2, summ, depth)
             if isinstance(n, ast.DictComp):
-                return self.ev(n.key, env2, summ, depth) | self.ev(n.value, env2, summ, depth)
-            return self.ev(n.elt, env2, summ, depth)
+                v = self.ev(n.key, env2, summ, depth) | self.ev(n.value, env2, summ, depth)
+            else:
+                v = self.ev(n.elt, env2, summ, depth)
+            return freshen(v) if self.alias_only else v
         if isinstance(n, ast.JoinedStr):
             for v in n.values:
                 if isinstance(v, ast.FormattedValue):
@@ -317,7 +337,8 @@ class Flow:
                 self.bind(tgt.elts[0], frozenset(), env)
                 self.bind_iter(tgt.elts[1], it_node.args[0], env, summ, depth)
                 return
-        self.bind(tgt, self.ev(it_node, env, summ, depth), env)
+        v = self.ev(it_node, env, summ, depth)
+        self.bind(tgt, elements(v) if self.alias_only else v, env)
 
     def bind(self, tgt, val, env):
         if isinstance(tgt, ast.Name):
@@ -378,6 +399,12 @@ class Flow:
         if isinstance(f, ast.Name) and f.id in SCALARISING:
             return frozenset()
         if isinstance(f, ast.Name) and f.id in TRANSPARENT:
+            if self.alias_only:
+                if f.id in ("cast", "not_none", "_verify_is_array", "next", "iter"):
+                    return elements(allargs) if f.id == "next" else allargs
+                if f.id in ("id", "hash"):
+                    return frozenset()
+                return freshen(elements(allargs))
             return allargs
         if isinstance(f, ast.Name) and f.id == "getattr" and len(n.args) >= 2:
             if isinstance(n.args[1], ast.Constant):
@@ -410,8 +437,10 @@ class Flow:
                 env[f.value.id] = env.get(f.value.id, frozenset()) | allargs
                 return frozenset()
             if recv and f.attr in MUTATORS:
-                summ.muts.append(MutEvent("call:" + f.attr, recv, n,
-                                          env.get("__owner__")))
+                real = frozenset(x for x in recv if not x[0].startswith("~"))
+                if real or not self.alias_only:
+                    summ.muts.append(MutEvent("call:" + f.attr, real or recv, n,
+                                              env.get("__owner__")))
                 return frozenset()
             if f.attr in CTOR_METHODS and recv:
                 summ.ctors.append(CtorEvent(ast.unparse(f)[:80], f.attr, None,
@@ -464,7 +493,7 @@ class Flow:
                                             env.get("__owner__")))
                 if self._is_mapper_class(qn):
                     return frozenset({("__mapper__", (qn,), False)})
-                return allargs
+                return frozenset() if self.alias_only else allargs
 
         if target is not None:
             if depth >= self.max_depth:
@@ -499,15 +528,15 @@ class Flow:
             tv = self.ev(f.args[0], env, summ, depth)
             summ.ctors.append(CtorEvent(ast.unparse(f)[:80], "type(self)", None,
                                         kwargs, args, n, tv, env.get("__owner__")))
-            return allargs
+            return frozenset() if self.alias_only else allargs
         if fname == "replace" and args:
             summ.ctors.append(CtorEvent(ast.unparse(f)[:80], "replace", None,
                                         kwargs, args[1:], n, args[0],
                                         env.get("__owner__")))
-            return allargs
+            return frozenset() if self.alias_only else allargs
         if allargs:
             summ.opaque.append((ast.unparse(f)[:60], allargs, n))
-        return allargs
+        return frozenset() if self.alias_only else allargs
 
     def _is_mapper_class(self, qn):
         return any(c.endswith(".Mapper") or c == "pytato.equality.EqualityComparer"
